@@ -37,9 +37,9 @@ fn cmd_drive(args: &[String]) {
     for c in cases {
         let case: drive::Case = serde_json::from_value(c.clone())
             .unwrap_or_else(|e| panic!("bad case: {e}: {c}"));
+        // no `null`s: TLC's Json module cannot deserialise them
         let reset = json!({"seq":0,"t_us":0,"kind":"reset","case":case.id,
-                           "cfg":case.cfg,"expect":case.expect,
-                           "parser":case.parser});
+                           "expect":case.expect});
         writeln!(out, "{reset}").unwrap();
         let res = drive::run_case(&case);
         for l in &res.lines {
